@@ -2,8 +2,10 @@ package harness
 
 import (
 	"fmt"
+
 	"strings"
 	"time"
+	"verif.local/simrt"
 
 	"net"
 )
@@ -30,7 +32,9 @@ type rawCmd struct {
 	Cont []string
 	// IdleFor: simulated time to stay idle before sending DONE.
 	IdleFor time.Duration
-	NoWait  bool // pipelined: do not wait for the tagged reply before sending the next command
+	NoWait  bool          // pipelined: do not wait for the tagged reply before sending the next command
+	Hangup  bool          // close the connection instead of sending the last continuation line (e.g. disconnect while idling)
+	Pause   time.Duration // after sending, do not read anything for this long (slow / stalled reader)
 	Poison  []string
 }
 
@@ -273,6 +277,13 @@ func (p *rawPeer) run(cmds []rawCmd) {
 			if ci == len(c.Cont)-1 && c.IdleFor > 0 {
 				p.idleRead(c.IdleFor)
 			}
+			if ci == len(c.Cont)-1 && c.Hangup {
+				p.conn.Close()
+				p.eof = true
+				o.Closed = true
+				ended = true
+				break
+			}
 			if o.SendErr = p.write([]byte(line + "\r\n")); o.SendErr != nil {
 				ended = true
 				break
@@ -281,6 +292,9 @@ func (p *rawPeer) run(cmds []rawCmd) {
 		if ended {
 			p.r.Tracef("%s > %s %s: %s", p.name, c.Tag, c.Name, o.describe())
 			continue
+		}
+		if c.Pause > 0 {
+			simrt.Sleep(c.Pause)
 		}
 		if c.NoWait {
 			unwaited = append(unwaited, o)
